@@ -337,14 +337,14 @@ Section Expr.
     expect CLOSING_ROUND_BRACKET ;;;
     ret args.
 
-  (* evaluateArguments: "(" args ")" checked against params (None = unchecked, for programs) *)
+  (* evaluateArguments: "(" args ")" checked against params (None = no signature, for programs: any value) *)
   Fixpoint p_args_loop (pe : P expr) (params : option (list var)) (seen : nat) (n : nat) : P (list expr) :=
     match n with
     | O => nofuel
     | S n' =>
         e <- pe ;;
         guard (match params with
-               | None => true
+               | None => negb (dtype_eqb (dt (type_of e)) DUnknown)
                | Some ps => match nth_error ps seen with
                             | Some p => vtype_eqb (v_type p) (type_of e)
                             | None => false
